@@ -2,6 +2,7 @@
 from ..paths import PathEnumerator
 from ..guards import fv
 from ..terms import TermBuilder, fmt, mk, const, subterms, elem_of, erase_param_names
+from ..terms import callee_is as _nm
 from .common import SELF, self_field, methods_of, has_self_receiver, all_writes, symmetric_guards, fields_mentioned, loop_exits_only_on_exhaustion
 
 EXPLANATION = (
@@ -69,8 +70,8 @@ def run(ctx):
     wantq = ("index", ("field", selfp, "table"), mk("Add", ("elem", Sq), mk("Mul", ("enum_idx", Sq), ("field", selfp, "w"))))
     okq = False
     cell = None
-    if r[0] == "call" and r[1].endswith("unwrap") or True:
-        mins = [s for s in subterms(r) if s[0] == "call" and s[1].endswith("Iterator::min")]
+    if r[0] == "call" and _nm(r[1], "unwrap") or True:
+        mins = [s for s in subterms(r) if s[0] == "call" and _nm(s[1], "Iterator::min")]
         if len(mins) == 1:
             cell = elem_of(mins[0][2][0])
             okq = cell == wantq
@@ -95,7 +96,7 @@ def run(ctx):
         d = dict(rt[3])
         b = d.get("builder")
         tl = d.get("table")
-        if b and b[0] == "call" and b[1].endswith("HashIterBuilder::new") and tl and tl[0] == "call" and tl[1].endswith("from_elem"):
+        if b and b[0] == "call" and _nm(b[1], "HashIterBuilder::new") and tl and tl[0] == "call" and _nm(tl[1], "from_elem"):
             oks = d["w"] == b[2][0] and d["d"] == b[2][1] and tl[2][1] == mk("Mul", d["w"], d["d"]) and d["w"] != d["d"]
     ctx.check(oks, "R02-stride", ctor.key, ctor, "field w == m of the hash iterator, field d == k, table length == w*d",
               "constructor wiring broken (w must be the iterator's m, d its k, table length w*d): %s" % desc[:260])
@@ -229,13 +230,13 @@ def run(ctx):
         if okie:
             from ..terms import apply_closure
             pred = apply_closure(r[2][1], (("elem", ("dummy",)),))
-            okie = pred[0] == "call" and pred[1].endswith("is_zero") and pred[2] == (("elem", ("dummy",)),)
+            okie = pred[0] == "call" and _nm(pred[1], "is_zero") and pred[2] == (("elem", ("dummy",)),)
         else:
             from .common import bool_loop_form
             bl = bool_loop_form(ctx, ie)      # `for x in &self.table { if !x.is_zero() { return false } } true`
             if bl is not None and bl[0] == "all" and bl[1] == ("field", selfp, "table"):
                 pred = bl[2]
-                okie = pred[0] == "call" and pred[1].endswith("is_zero") and pred[2] == (("elem", ("field", selfp, "table")),)
+                okie = pred[0] == "call" and _nm(pred[1], "is_zero") and pred[2] == (("elem", ("field", selfp, "table")),)
         ctx.check(okie, "R02-is-empty", ie.key, ie, "is_empty == table.iter().all(is_zero) over the whole table", "is_empty is %s — not `every cell of the table is zero`" % fmt(r)[:200])
     # ---- merge guards (shared with C06) ----------------------------------------------------------------------
     mg = ctx.anchor(CMS + "::merge")
